@@ -1,7 +1,7 @@
 use num::bigint::BigInt;
 use num::traits::FloatConst;
 use num::{
-    BigRational, CheckedAdd, CheckedDiv, CheckedMul, CheckedSub, FromPrimitive, Rational64, Signed,
+    BigRational, CheckedAdd, CheckedMul, CheckedSub, FromPrimitive, Rational64, Signed,
 };
 use num::{Num, Rational32, ToPrimitive};
 use std::cmp::Ordering;
@@ -706,6 +706,49 @@ impl Sub for &Number {
     }
 }
 
+/// The quotient numer/denom of two integers that fit 32 bits (denom != 0) as a
+/// rational. Rational32::new overflows when reducing i32::MIN by a negative
+/// denominator, so the reduction is done in 64 bits; a component that does not
+/// fit 32 bits afterwards (only 2^31, from i32::MIN) gives the integer 2^31 or
+/// falls back to float like the other overflows do.
+fn rational_from_i32_quotient(numer: i32, denom: i32) -> Number {
+    let (mut numer, mut denom) = (numer as i64, denom as i64);
+    let (mut a, mut b) = (numer.abs(), denom.abs());
+    while b != 0 {
+        (a, b) = (b, a % b);
+    }
+    if a > 1 {
+        numer /= a;
+        denom /= a;
+    }
+    if denom < 0 {
+        numer = -numer;
+        denom = -denom;
+    }
+    match (numer.to_i32(), denom.to_i32()) {
+        (Some(numer), Some(denom)) => Rational32::new_raw(numer, denom).into(),
+        _ if denom == 1 => numer.into(),
+        _ => (numer as f64 / denom as f64).into(),
+    }
+}
+
+/// lhs / rhs as a 32 bit rational, None if a component does not fit (or rhs is zero).
+/// Ratio<i32>::checked_div panics when the numerators are 0 or i32::MIN and i32::MIN
+/// (their gcd overflows), so the quotient is formed and reduced in 64 bits.
+fn rational_checked_div(lhs: &Rational32, rhs: &Rational32) -> Option<Rational32> {
+    if *rhs.numer() == 0 {
+        return None;
+    }
+    let quotient = num::rational::Ratio::<i64>::new(
+        *lhs.numer() as i64 * *rhs.denom() as i64,
+        *lhs.denom() as i64 * *rhs.numer() as i64,
+    );
+    match (quotient.numer().to_i32(), quotient.denom().to_i32()) {
+        (Some(numer), Some(denom)) => Some(Rational32::new_raw(numer, denom)),
+        _ => None,
+    }
+}
+
 impl Div for Number {
     type Output = Number;
     fn div(self, rhs: Self) -> Self::Output {
@@ -721,14 +764,14 @@ impl Div for &Number {
             Number::Fixnum(lhs) => match rhs {
                 Number::Fixnum(rhs) => {
                     if lhs.to_i32().is_some() && rhs.to_i32().is_some() {
-                        Rational32::new(*lhs as i32, *rhs as i32).into()
+                        rational_from_i32_quotient(*lhs as i32, *rhs as i32)
                     } else {
                         (*lhs as f64 / *rhs as f64).into()
                     }
                 }
                 Number::BigInt(rhs) => {
                     if lhs.to_i32().is_some() && rhs.to_i32().is_some() {
-                        Rational32::new(*lhs as i32, rhs.to_i32().unwrap()).into()
+                        rational_from_i32_quotient(*lhs as i32, rhs.to_i32().unwrap())
                     } else {
                         (*lhs as f64 / rhs.to_f64().unwrap_or(f64::NAN)).into()
                     }
@@ -736,7 +779,7 @@ impl Div for &Number {
                 Number::Float(rhs) => (*lhs as f64 / rhs).into(),
                 Number::Rational(rhs) => {
                     if lhs.to_i32().is_some() {
-                        match Rational32::from_integer(*lhs as i32).checked_div(rhs) {
+                        match rational_checked_div(&Rational32::from_integer(*lhs as i32), rhs) {
                             Some(num) => num.into(),
                             None => (*lhs as f64 / rhs.to_f64().unwrap_or(f64::NAN)).into(),
                         }
@@ -748,14 +791,14 @@ impl Div for &Number {
             Number::BigInt(lhs) => match rhs {
                 Number::Fixnum(rhs) => {
                     if lhs.to_i32().is_some() && rhs.to_i32().is_some() {
-                        (Rational32::new(lhs.to_i32().unwrap(), *rhs as i32)).into()
+                        rational_from_i32_quotient(lhs.to_i32().unwrap(), *rhs as i32)
                     } else {
                         (lhs.to_f64().unwrap_or(f64::NAN) / *rhs as f64).into()
                     }
                 }
                 Number::BigInt(rhs) => {
                     if lhs.to_i32().is_some() && rhs.to_i32().is_some() {
-                        (Rational32::new(lhs.to_i32().unwrap(), rhs.to_i32().unwrap())).into()
+                        rational_from_i32_quotient(lhs.to_i32().unwrap(), rhs.to_i32().unwrap())
                     } else {
                         (lhs.to_f64().unwrap_or(f64::NAN) / rhs.to_f64().unwrap_or(f64::NAN)).into()
                     }
@@ -763,7 +806,8 @@ impl Div for &Number {
                 Number::Float(rhs) => (lhs.to_f64().unwrap() / *rhs).into(),
                 Number::Rational(rhs) => {
                     if lhs.to_i32().is_some() {
-                        match Rational32::from_integer(lhs.to_i32().unwrap()).checked_div(rhs) {
+                        match rational_checked_div(&Rational32::from_integer(lhs.to_i32().unwrap()), rhs)
+                        {
                             Some(num) => num.into(),
                             None => {
                                 (lhs.to_f64().unwrap() / rhs.to_f64().unwrap_or(f64::NAN)).into()
@@ -783,7 +827,7 @@ impl Div for &Number {
             Number::Rational(lhs) => match rhs {
                 Number::Fixnum(rhs) => {
                     if rhs.to_i32().is_some() {
-                        match lhs.checked_div(&Rational32::from_integer(*rhs as i32)) {
+                        match rational_checked_div(lhs, &Rational32::from_integer(*rhs as i32)) {
                             Some(num) => num.into(),
                             None => (lhs.to_f64().unwrap_or(f64::MAX) / *rhs as f64).into(),
                         }
@@ -794,7 +838,8 @@ impl Div for &Number {
                 Number::Float(rhs) => (lhs.to_f64().unwrap_or(f64::NAN) / *rhs).into(),
                 Number::BigInt(rhs) => {
                     if rhs.to_i32().is_some() {
-                        match lhs.checked_div(&Rational32::from_integer(rhs.to_i32().unwrap())) {
+                        match rational_checked_div(lhs, &Rational32::from_integer(rhs.to_i32().unwrap()))
+                        {
                             Some(num) => num.into(),
                             None => {
                                 (lhs.to_f64().unwrap_or(f64::MAX) / rhs.to_f64().unwrap()).into()
@@ -804,7 +849,7 @@ impl Div for &Number {
                         (lhs.to_f64().unwrap_or(f64::MAX) / rhs.to_f64().unwrap()).into()
                     }
                 }
-                Number::Rational(rhs) => match lhs.checked_div(rhs) {
+                Number::Rational(rhs) => match rational_checked_div(lhs, rhs) {
                     Some(num) => num.into(),
                     None => {
                         (lhs.to_f64().unwrap_or(f64::NAN) / rhs.to_f64().unwrap_or(f64::NAN)).into()
